@@ -449,9 +449,15 @@ fn main() {
   let plans: Vec<&LangPlan> = if args.thorough() { PLANS.iter().collect() } else { PLANS.iter().take(1).collect() };
   for p in plans {
     let spec = spec_by_name(p.lang).unwrap();
-    // thorough: 4 siblings for javascript, 3 for the other two languages (4 everywhere took > 25 min)
-    let k = if args.thorough() && p.lang == "javascript" { 4 } else { 3 };
+    // thorough: every document on sources of <= 3 siblings; in javascript the documents of depth
+    // <= 1 also on sources of 4 siblings (all documents on 4 siblings took > 20 min)
+    let k = 3;
     let srcs = sources(p, k);
+    let deep_trees: Vec<(String, AstGrep<D>)> = if args.thorough() && p.lang == "javascript" {
+      sources(p, 4).into_iter().filter(|s| !srcs.contains(s)).map(|s| { let g = spec.lang.ast_grep(&s); (s, g) }).collect()
+    } else {
+      vec![]
+    };
     let trees: Vec<(String, AstGrep<D>)> = srcs.iter().map(|s| (s.clone(), spec.lang.ast_grep(s))).collect();
     let mut atoms: Vec<R> = p.atoms.iter().map(|a| R::Pat(a.to_string())).collect();
     atoms.extend(p.kinds.iter().map(|k| R::Kind(k.to_string())));
@@ -466,6 +472,7 @@ fn main() {
     for r in atoms.iter().chain(d1.iter()).chain(d2.iter()) {
       docs.push((top_op(r), RuleDoc::simple(r.clone())));
     }
+    let n_shallow = atoms.len() + d1.len();
     if args.thorough() {
       // a slice of depth 3: every 7th depth-2 rule under each operator once
       let slice: Vec<R> = d2.iter().step_by(7).cloned().collect();
@@ -551,9 +558,12 @@ fn main() {
       }
     }
     docs.par_iter().for_each(|(class, d)| run_doc(&rep, p.lang, d, &trees, &st, class));
+    if !deep_trees.is_empty() {
+      docs[..n_shallow].par_iter().for_each(|(class, d)| run_doc(&rep, p.lang, d, &deep_trees, &st, class));
+    }
     let (lin_cases, lin_equal) = linearization(&rep, p.lang, &st);
     let (es_cases, es_must, es_unjudged) = ellipsis_scan(&rep, p.lang, &st, if args.thorough() { 4 } else { 3 });
-    per_lang.push(json!({"lang": p.lang, "sources": srcs.len(), "max_siblings": k, "rule_documents": docs.len(),
+    per_lang.push(json!({"lang": p.lang, "sources": srcs.len(), "max_siblings": k, "extra_sources_of_4_siblings_for_depth_le1_documents": deep_trees.len(), "rule_documents": docs.len(),
       "ellipsis_scan_cases": es_cases, "ellipsis_scan_cases_that_must_match": es_must, "ellipsis_scan_cases_not_judged_first_success_is_not_last": es_unjudged,
       "repeated_variable_linearisation_cases": lin_cases, "of_which_captures_spell_identical_tokens": lin_equal}));
   }
